@@ -446,6 +446,58 @@ def explore_reuse(case):
     return res
 
 
+def explore_helpers(case):
+    """entry points outside cyecca.lie that expose the same facts: `rdd2.derive_common()` rotates a vector with the matrix form of a
+    quaternion (body -> world) and of its inverse (world -> body); `X @ v` is the matrix-vector product"""
+    seed = case["seed"]
+    res = core.Result()
+    with contextlib.redirect_stdout(io.StringIO()):
+        from cyecca.models import rdd2
+        fns = rdd2.derive_common()
+    want_keys = {"rotate_vector_w_to_b", "rotate_vector_b_to_w"}
+    res.count("evaluations")
+    if set(fns) != want_keys:
+        res.fail(site="rdd2.derive_common", clause="shipped_rotation_helpers_present", cls="-", detail=dict(keys=sorted(fns)), sub="helpers", case=case)
+        return res
+    vs = [np.array([1.0, 0, 0]), np.array([1.0, -2.0, 3.0]), alpha.generic_vec(seed, 3)]
+    for rv in alpha.rotvecs(seed, small=True):
+        for tag, q, R in alpha.rot_reps("Quat", rv):
+            for v in vs:
+                res.count("evaluations", 3)
+                res.nontrivial.add(hash((q.tobytes(), v.tobytes())))
+                vb = np.array(fns["rotate_vector_w_to_b"](q, v), dtype=float).reshape(-1)
+                vw = np.array(fns["rotate_vector_b_to_w"](q, v), dtype=float).reshape(-1)
+                res.outcomes.add(hash(np.round(R @ v, 8).tobytes()))
+                if maxabs(vb - R.T @ v) > 1e-9 * (1 + maxabs(v)):
+                    res.fail(site="rdd2.rotate_vector_w_to_b", clause="matrix_form_of_inverse_acts_as_matrix_inverse", cls=tag, detail=dict(q=q, v=v, got=vb, want=R.T @ v), sub="helpers", case=case)
+                if maxabs(vw - R @ v) > 1e-9 * (1 + maxabs(v)):
+                    res.fail(site="rdd2.rotate_vector_b_to_w", clause="action_is_matrix_vector_product", cls=tag, detail=dict(q=q, v=v, got=vw, want=R @ v), sub="helpers", case=case)
+                # the operator spelling on every SO(3) parameterisation
+                for kind, Gk in lib.SO3S.items():
+                    for t2, pk, Rk in alpha.rot_reps(kind, rv)[:1]:
+                        try:
+                            with contextlib.redirect_stdout(io.StringIO()):
+                                got = numapi.ev(Gk.elem(ca.DM(pk)) @ ca.DM(v)).reshape(-1)
+                        except NotImplementedError:
+                            continue
+                        if maxabs(got - Rk @ v) > 1e-9 * (1 + maxabs(v)):
+                            res.fail(site="SO3%s.@" % kind, clause="action_is_matrix_vector_product", cls=t2, detail=dict(p=pk, v=v, got=got, want=Rk @ v), sub="helpers", case=case)
+    res.count("states", 2)
+    res.count("transitions", 2)
+    res.samples.append(dict(helpers=sorted(want_keys)))
+    return res
+
+
+class _Help:
+    chunks = 1
+
+    def cases(self, tier, seed):
+        return [dict(sub="helpers", tier=tier, seed=seed)]
+
+    def run(self, case):
+        return explore_helpers(case)
+
+
 class _Reuse:
     chunks = 1
 
@@ -475,6 +527,8 @@ SUBCHECKS["chain"] = _Chain()
 REPLAY["chain"] = lambda c: explore_chain(c).fails
 SUBCHECKS["reuse"] = _Reuse()
 REPLAY["reuse"] = lambda c: explore_reuse(c).fails
+SUBCHECKS["helpers"] = _Help()
+REPLAY["helpers"] = lambda c: explore_helpers(c).fails
 
 
 # results must not depend on which library calls were made earlier in the process (see mc/order.py)
